@@ -26,7 +26,8 @@ impl Iterator for PyRange {
             return None;
         }
         let out = self.cur;
-        self.cur += self.step;
+        // Saturate instead of overflowing near the i64 limits: a saturated cursor is always past `end`.
+        self.cur = self.cur.saturating_add(self.step);
         Some(out)
     }
 }
